@@ -152,6 +152,56 @@ def ext_cases(chk, noise, settings, only, lines, expect, mat_line):
                 except Exception as e:
                     noise.stop()
                     chk.violation(cell + "/exception", f"{type(e).__name__}: {str(e)[:300]}", pay)
+    # ---- (R6) ConstantMul inverse root (/repo c4c33aa): c^-1/2 x base inverse root, scalar and batch constants, paired with the root
+    from linear_operator.operators import ConstantMulLinearOperator as _CMul
+    for batch in batches:
+        for ckind in ("scalar", "batchc"):
+            for pre in ("none", "diagonalization"):
+                n = 3
+                cell = f"C18/roots/ConstantMul[rootinv|b={batch}|c={ckind}|n={n}]/pre={pre}"
+                if only and only != cell:
+                    continue
+                if ckind == "batchc" and not batch:
+                    continue
+                rng = _rng(chk, cell)
+                pay = {"cell": cell, "seed": chk.seed, "tier": chk.tier}
+                members = int(torch.Size(batch).numel()) if batch else 1
+                A0 = _psd(rng, batch, n)
+                c = _ri(rng, batch if ckind == "batchc" else (), 2, 5)
+                A = A0 * c.reshape(*c.shape, 1, 1)
+                try:
+                    with warnings.catch_warnings():
+                        warnings.simplefilter("ignore")
+                        op = _CMul(DenseLinearOperator(A0.clone()), c.clone())
+                        chk.case(cell, nontrivial=True)
+                        chk.count("roots:constmul-rootinv")
+                        if pre != "none":
+                            getattr(op, pre)()
+                        Ri = op.root_inv_decomposition().root.to_dense()
+                        R = op.root_decomposition().root.to_dense()
+                        Ri0 = op.base_linear_op.root_inv_decomposition().root.to_dense()
+                        eye = torch.eye(n, dtype=torch.float64).expand(*batch, n, n)
+                        errI = rel_err(Ri.double() @ Ri.double().mT, torch.linalg.inv(A))
+                        errP = rel_err(Ri.double().mT @ R.double(), eye) if R.shape == Ri.shape else float("inf")
+                        if errI > 1e-9:
+                            chk.violation(cell + "/rootinv", f"inverse root Ri Ri^T differs from (cA)^-1: rel err {errI:.2e}", pay)
+                        elif errP > 1e-9:
+                            chk.violation(cell + "/paired", f"cached root and inverse root are not mutual inverses: |Ri^T R - I| = {errP:.2e} (add_low_rank / cat_rows combine them)", pay)
+                        elif Ri0.shape[-2:] == Ri.shape[-2:]:
+                            m = Ri.shape[-1]
+                            isc = (c ** -0.5).expand(batch).reshape(members)
+                            Ri0m = Ri0.expand(*batch, n, m).reshape(members, n, m)
+                            for mi in range(members):
+                                lines.append(f"constMulRootInv {n} {m} {_fr(isc[mi])} {mat_line(Ri0m[mi])}")
+                                expect.append((cell, Ri.reshape(members, n, m)[mi].double(), 1e-12))
+                        else:
+                            chk.corr_break(cell + "/layout", f"inverse root {tuple(Ri.shape)} vs base inverse root {tuple(Ri0.shape)}", pay)
+                        # the derivations that combine the two roots draw correctly
+                        V = _ri(rng, (*batch, n, 2), -2, 2)
+                        sampler_cov(cell, op.add_low_rank(V), A + V @ V.mT, 1e-8, pay)
+                except Exception as e:
+                    noise.stop()
+                    chk.violation(cell + "/exception", f"{type(e).__name__}: {str(e)[:300]}", pay)
     # ---- (R5) SumKronecker `_root_decomposition` = lt2_root.matmul(inner_mat_root) (Lean: mmul / sumKron_cov), default settings
     from .. import catalogue
     from linear_operator.operators import KroneckerProductLinearOperator as _Kron
